@@ -3,13 +3,13 @@ package main
 import (
 	"strings"
 
-	sdkmath "cosmossdk.io/math"
 )
 
 func buildMonitors(s *Sim) []Monitor {
 	ms := []Monitor{
-		&MonC01{donated: map[string]sdkmath.Int{}},
-		&MonC02{},
+		newMonC01(s),
+		newMonC02(s),
+		&MonC02Ledger{},
 	}
 	ms = append(ms, extraMonitors(s)...)
 	for _, m := range ms {
